@@ -33,21 +33,20 @@ Proof. intros c w. exact (stdout_only_on_success CODE_FLUSHES c w). Qed.
 
 (* exit 0 (stdout not closed): load, evaluation and manifestation succeeded, every fs::write
    succeeded, and the complete output is in the -o file / on stdout *)
-Definition C12_goal_write_failure_is_exit1 : Prop := forall c w,
+Theorem C12_write_failure_is_exit1 : forall c w,
   is_dev (w_stdout w) -> r_exit (run c w) = 0 -> delivered_r c w (run c w).
+Proof. exact write_failure_is_exit1. Qed.
 
-(* REFUTED on main.rs as it stands: a final line without newline stays in Stdout's buffer,
-   write_all reports success, and the runtime's exit flush ignores the error *)
-Theorem C12_write_failure_refuted : ~ C12_goal_write_failure_is_exit1.
-Proof.
-  intros H.
-  specialize (H (ex_cfg true false true None None) (ex_world [(1, ShStr ex_abc)] [] (SoDev (Some 0))) I eq_refl).
-  destruct H as (out & files & warned & Hc & _ & Hs). vm_compute in Hc. vm_compute in Hs.
-  destruct Hs as [Hs _]. inversion Hc; subst. discriminate.
-Qed.
+(* and with healthy sinks a completed computation is always delivered with exit 0 *)
+Theorem C12_healthy_run_succeeds : forall c w out files warned,
+  w_stdout w = SoDev None -> (forall p, c_output c = Some p -> w_target w p = TDev None) ->
+  compute c w = CReady out files warned ->
+  r_exit (run c w) = 0 /\ delivered_r c w (run c w).
+Proof. intros c w. exact (healthy_run_succeeds CODE_FLUSHES c w). Qed.
 
-(* why the flush is needed: main.rs without it (write_all only) exits 0 on a full device
-   with the output lost *)
+(* why the flush is needed (the finding repaired by the fix: commit): main.rs without it
+   (write_all only, [run_gen false]) exits 0 on a full device with the output lost, although
+   the same output with a trailing newline exits 1 *)
 Example C12_needs_flush :
   let c := ex_cfg true false true None None in
   let w := ex_world [(1, ShStr ex_abc)] [] (SoDev (Some 0)) in
@@ -170,7 +169,8 @@ Proof. vm_compute. repeat split. Qed.
 Print Assumptions C12_cli_exit_in_012.
 Print Assumptions C12_usage_is_2.
 Print Assumptions C12_stdout_only_on_success.
-Print Assumptions C12_write_failure_refuted.
+Print Assumptions C12_write_failure_is_exit1.
+Print Assumptions C12_healthy_run_succeeds.
 Print Assumptions C12_string_mode_is_value.
 Print Assumptions C12_yaml_stream_shape.
 Print Assumptions C12_multi_files_are_visible_fields.
